@@ -43,4 +43,8 @@ CLAIMED = {
   technique="TLA+ definitions of hexascii / RFC 4648 base64 / fixed-width hex (Codec.tla) whose laws (round trip, lengths, alphabets, RFC test vectors) are checked by TLC over all strings up to length 2 and up to length 5 over critical bytes; recorded calls of every codec entry point validated by TLC against the definitions",
   text="TLC first establishes on ~70k strings that the definitions are inverse pairs with the documented lengths and alphabets and reproduce the RFC 4648 section 10 vectors; then every C and C++ encoder form, the decoders on encoder output, and the 8/16/32/64-bit hex helpers are run on exhaustive short inputs, reduced-alphabet inputs and random strings (exact-size heap inputs, guarded outputs) and each call is judged against the definition.",
   note=NOTE),
+ "C07": dict(
+  technique="TLA+ definitions of canonical rendering and parsing on byte arrays (NumText.tla, schoolbook arithmetic, no wide integers) whose laws (parse(render)=id in either case, canonical form, stop at terminator) are checked by TLC; recorded calls of every converter validated by TLC",
+  text="The definitions are model-checked for round trip, canonical form and stop position over enumerated values x bases; then all igris_*toa / igris_ato*, itoa/utoa/ltoa/ultoa and the debug decimal/hex/binary printers run on all 8-bit values, 16-bit boundary+random (exhaustive in thorough), 32/64-bit boundary patterns and random values in bases 2..36; the whole guarded output window, returned pointer, parsed value and end offset of each call are judged against the definitions.",
+  note=NOTE),
 }
